@@ -35,6 +35,9 @@ func runC04(c *Ctx) {
 	ruleListIterationStable(c, "C04.11")
 	ruleReplaySkipsOnlyOnPageLSN(c, "C04.12")
 	ruleRecoveryVisitsAll(c, "C04.13")
+	ruleFlushLoopComplete(c, "C04.14")
+	ruleLogNeverShrinks(c, "C04.15")
+	ruleReplayUnconditional(c, "C04.16")
 	// the log append of a statement is in the same bracket as its page changes (otherwise the timer
 	// flush can write an unlogged change and its LSN to the data file)
 	sub := NewCtx("C04", c.W)
